@@ -102,6 +102,9 @@ type Case struct {
 	Piped    []string     `json:"piped"`
 	Programs [][]gen.Step `json:"programs"`
 	Delays   []int        `json:"delays_us"`
+	// BusyTarget: the target is inside a (held) handler of an unrelated state while the source toggles,
+	// so every forwarded call is queued on the target; released once the source has finished
+	BusyTarget bool `json:"busy_target,omitempty"`
 }
 
 func (c Case) key() string { b, _ := json.Marshal(c); return string(b) }
@@ -225,6 +228,31 @@ func runCase(c Case, st *ev.Stats) error {
 		}
 	}
 
+	hold, entered := make(chan struct{}), make(chan struct{})
+	if c.BusyTarget {
+		var once sync.Once
+		if _, err := tgt.HandlersBindMaps(nil, map[string]am.HandlerFinal{"OtherState": func(*am.Event) {
+			once.Do(func() { close(entered); <-hold })
+		}}); err != nil {
+			return err
+		}
+		go tgt.Add1("Other", nil)
+		select {
+		case <-entered:
+		case <-time.After(5 * time.Second):
+			close(hold)
+			return fmt.Errorf("setup: the target did not enter the held handler")
+		}
+	}
+	released := false
+	release := func() {
+		if c.BusyTarget && !released {
+			released = true
+			close(hold)
+		}
+	}
+	defer release()
+
 	// workload
 	single := len(c.Programs) == 1
 	var wg sync.WaitGroup
@@ -283,6 +311,17 @@ func runCase(c Case, st *ev.Stats) error {
 				}
 			}
 		}
+	}
+	if c.BusyTarget {
+		// let the forwarded calls pile up in the target's queue, then let the target run
+		dl := time.Now().Add(300 * time.Millisecond)
+		for c.Bind != "Flat" && c.Bind != "BindAny" && int(px.calls.Load())-int(px.inFlight.Load()) < expected && time.Now().Before(dl) {
+			time.Sleep(200 * time.Microsecond)
+		}
+		if st != nil && tgt.QueueLen() >= 3 {
+			st.Class("busy target: >=3 forwarded mutations queued behind its running transition")
+		}
+		release()
 	}
 	// joint quiescence
 	deadline := time.Now().Add(10 * time.Second)
@@ -444,6 +483,7 @@ func genCase(t *rapid.T) Case {
 		}
 		c.Programs = append(c.Programs, p)
 	}
+	c.BusyTarget = rapid.IntRange(0, 2).Draw(t, "busyTarget") == 0
 	nd := rapid.IntRange(0, 4).Draw(t, "delays")
 	for i := 0; i < nd; i++ {
 		c.Delays = append(c.Delays, rapid.SampledFrom([]int{0, 0, 50, 300, 1500}).Draw(t, "delay"))
